@@ -307,7 +307,17 @@ func runC01(r *Runner, g *Gen, tier string) string {
 	for i := 0; i < n; i++ {
 		cfg := g.pickCfg()
 		t, v := g.sample(cfg, 3)
+		if g.r.P(6) {
+			// pointer-shaped structs: Marshal by value takes the value out of the interface word itself
+			t = g.ifaceShaped()
+			b := 20
+			v = g.Value(t, &b)
+		}
 		r.Do(codecOp("rt", cfg, t, "", v.Sexp()), nontrivialVal(t, v), "rt")
+	}
+	// a long history through one interned field: more distinct strings than any table limit one might pick
+	for _, n := range []int{257, scale(tier, 10000, 20000)} {
+		r.Do(L(A("internmany"), A(fmt.Sprint(n))), true, "internmany")
 	}
 	return "type-directed generation: random struct/slice/map/pointer/named/recursive type definitions (depth<=3, reflect-built plus a static corpus of named and recursive types) under the four option combinations, boundary-biased values; op = Marshal then Unmarshal into a fresh variable; non-trivial = value contains a non-empty container, non-nil pointer or struct with fields; distinct = distinct op text"
 }
@@ -396,6 +406,8 @@ func runC05(r *Runner, g *Gen, tier string) string {
 		}
 		r.Do(codecOp("laws", cfg, t, "", v.Sexp(), A(hx(tags[g.r.Intn(len(tags))]))), nontrivialVal(t, v), "laws")
 	}
+	// measured, changed in place, appended again into a re-used buffer: every length prefix is that of the value as it is now
+	mutStream(r, g, scale(tier, 500, 40000))
 	// the exported BigQuery timestamp codec (not reachable from CodecForType)
 	secs := []int64{0, 1, -1, 1700000000, -62135596800, 253402300799, 2147483647, 2147483648, -2208988800, 9223372036854, -9223372036854}
 	nsecs := []int64{0, 1, 999, 1000, 1001, 999999, 1000000, 123456789, 999999000, 999999999}
@@ -497,6 +509,53 @@ func (g *Gen) ltypeNoPtr(depth int) *TyDef {
 	return t
 }
 
+// absentEntries: a copy of v in which map entries keep their keys but a share of their values
+// (and of the pointer / null fields) is made absent or zero.
+func absentEntries(g *Gen, t *TyDef, v *Val) *Val {
+	switch t.K {
+	case "named":
+		if t.Elem.K == "time" {
+			return v
+		}
+		return absentEntries(g, t.Elem, v)
+	case "struct":
+		out := &Val{K: "r"}
+		j := 0
+		for _, f := range t.Fields {
+			if !fieldEncoded(f) {
+				continue
+			}
+			if j >= len(v.L) {
+				return v
+			}
+			out.L = append(out.L, absentEntries(g, f.T, v.L[j]))
+			j++
+		}
+		return out
+	case "ptr":
+		if v.P == nil || g.r.P(25) {
+			return &Val{K: "p"}
+		}
+		return &Val{K: "p", P: absentEntries(g, t.Elem, v.P)}
+	case "map":
+		if v.K != "m" {
+			return v
+		}
+		out := &Val{K: "m"}
+		for _, e := range v.M {
+			x := e[1]
+			if g.r.P(60) {
+				x = zeroVal(t.Elem)
+			} else {
+				x = absentEntries(g, t.Elem, x)
+			}
+			out.M = append(out.M, [2]*Val{e[0], x})
+		}
+		return out
+	}
+	return v
+}
+
 func runC09(r *Runner, g *Gen, tier string) string {
 	n := scale(tier, 4000, 250000)
 	for i := 0; i < n; i++ {
@@ -509,6 +568,12 @@ func runC09(r *Runner, g *Gen, tier string) string {
 			continue
 		}
 		r.Do(codecOp("rt", cfg, t, "", v.Sexp()), nontrivialVal(t, v), "rt.presence")
+		if i%3 == 0 {
+			// absence overwrites: the target already holds the same keys / fields with present values
+			// (a re-used variable), the data says absent for some of them
+			prior := g.Value(t, &b)
+			r.Do(codecOp("decm", cfg, t, "", absentEntries(g, t, prior).Sexp(), prior.Sexp()), true, "decm.absent-over-present")
+		}
 		if i%4 == 0 {
 			// … and the Descriptor flags explicit presence for exactly those fields
 			r.Do(codecOp("desc", cfg, t, ""), true, "desc.presence")
